@@ -616,6 +616,7 @@ CHECKS["C38"]["units"].append(unit("./internal/storage/ledger", ["storage/bunhoo
 CHECKS["C38"]["explanation"] += " The expand parameter: the real Expand methods of the accounts, transactions, logs and volumes resource handlers get a symbolic value that is none of the documented ones: it is refused or ignored, never built into the statement (bun opaque; strcase.SnakeCase of a symbolic string is an arbitrary string)."
 CHECKS["C38"]["bounds"]["quick"] += "; expand values of <= 8 symbolic bytes"
 CHECKS["C38"]["explanation"] += " Cursors: besides 'no panic', every ORDER BY expression of a statement emitted for a decoded cursor sorts by a field of the resource (the column of a cursor is client text)."
-CHECKS["C38"]["explanation"] += " Filters: for each of the six resource handlers, every (field, operator) pair its schema admits (the field and operator lists are read from the real schema at run time; indexed and bare map fields) with a value the field type validates is resolved by the real ResolveFilter without a panic, to a predicate or an error."
+CHECKS["C38"]["explanation"] += " Filters: for each of the six ledger resource handlers and the system store's ledgers listing, every (field, operator) pair its schema admits (the field and operator lists are read from the real schema at run time; indexed and bare map fields) with a value the field type validates is resolved by the real ResolveFilter without a panic, to a predicate or an error."
 CHECKS["C38"]["outside"] = CHECKS["C38"]["outside"].replace("filter bodies; ", "the parsing of filter bodies by go-libs query.ParseJSON (the handlers' resolution of every admitted field/operator pair is covered); ")
 CHECKS["C20"]["explanation"] += " $in over string fields (logs.type, transactions.reference) is part of the leaf families."
+CHECKS["C38"]["units"].append(unit("./internal/storage/system", ["sysstore/c38.go"], "^Harness_C38_filter_ops_", QT, flags={"labels": "^(C38:|no-panic)", "max-decisions": 2000}, reach=["end"]))
